@@ -23,7 +23,9 @@ from mofun import replace_pattern_in_structure
 
 ENGINE = 'E3 state graph'
 CAP = 8
-INITS = ['empty Atoms()', '3-atom typed chain, full tables', '4 atoms, terms but no tables', '3 atoms, extra columns, tables', '4 atoms, bonds + improper, tables', '4 atoms, angles + dihedrals only (no bonds), tables']
+INITS = ['empty Atoms()', '3-atom typed chain, full tables', '4 atoms, terms but no tables', '3 atoms, extra columns, tables', '4 atoms, bonds + improper, tables', '4 atoms, angles + dihedrals only (no bonds), tables',
+         '3-atom typed chain at coordinates beyond 1000 A in a 2500 A cell', '3-atom typed chain at coordinates below -100 A']
+FAR_INITS = {6: (2500.0, np.array([1200.5, 1003.25, 999.9999996])), 7: (20.0, np.array([-148.0, -100.0000004, -1234.5]))}      # explored to depth 2
 FRAGS = ['single atom', 'bonded pair', '3 atoms, bond/angle terms', '4 atoms, all term kinds', '3 atoms, angles only']
 REPL = ['typed C-N-O with bonds + inserted F', 'empty', 'C-N-S (one element changed), typed']
 
@@ -68,6 +70,9 @@ class Model:
     def initial(self, i):
         if i == 0:
             a = Atoms(); ref = RefStructure([], {k: [] for k in KINDS}, None); tabled = None
+        elif i in FAR_INITS:
+            a = mk(3, True, cell=FAR_INITS[i][0]); a.positions = np.asarray(a.positions, float) + FAR_INITS[i][1]
+            ref = RefStructure.of(a); tabled = True
         else:
             a = [None, mk(3, True), mk(4, False), mk(3, True, xf=True), mk(4, True, kinds=['bond', 'improper']), mk(4, True, kinds=['angle', 'dihedral'])][i]
             ref = RefStructure.of(a); tabled = i != 2
@@ -308,7 +313,7 @@ def run(sc, ctx):
             v = bad[1]
             out['violations'].append(viol(v.clause, v.sig, 'history %r from "%s": step %d: %s' % (sc['history'], INITS[sc['init']], bad[0], v.msg), sc))
         return out
-    seen, viols = SG.bfs(m, sc['init'], [sc['first']], m.depth, stats)
+    seen, viols = SG.bfs(m, sc['init'], [sc['first']], 2 if sc['init'] in FAR_INITS else m.depth, stats)
     out['hashes'] = seen; out['evals'] = stats['transitions']; out['compared'] = stats['transitions'] + stats['replays']
     out['violating_transitions'] = stats['violating_transitions']; out['max_depth'] = stats['max_depth']; out['replayed_from_initial_state'] = stats['replays']
     for hist, v in viols:
